@@ -237,7 +237,14 @@ Definition csv_finalize (s : csv_state) : outcome csv_state err :=
 
 (* the destructor as it was before that commit (F18) *)
 Definition csv_row_unguarded (width : nat) : prog csv_state err :=
-  Scope false ((fix it n := match n with 0 => Skip | S k => Seq (Act write_value) (it k) end) width) next_line.
+  Scope false (iterate width (Act write_value)) next_line.
+Fixpoint csv_rows_unguarded (widths : list nat) : prog csv_state err :=
+  match widths with
+  | [] => Skip
+  | w :: rest => Seq (csv_row_unguarded w) (csv_rows_unguarded rest)
+  end.
+Definition csv_save_unguarded (widths : list nat) : prog csv_state err :=
+  Scope false (csv_rows_unguarded widths) (fun s => Ok s).
 
 (* one row: CsvWriteArrayScope::OpenObjectScope, `width` fields, ~CCsvWriteObjectScope *)
 Definition csv_row (width : nat) : prog csv_state err :=
